@@ -45,12 +45,12 @@ PROPS = {
         "(sampled symbols; 12 symbol pairs per position pair for 4 strings at thorough), sampled weight 3-4 incl. same-kind substitutions in the human-readable part",
    assumptions=["same as C04"],
    trusted_base=["Go strings.ToLower/ToUpper/LastIndex: parameters of the translated Decode, assumed as stated, not verified"]),
- "C19": P("C19", e2e="Iota.Tie.E2E.Migration",
-   rule="ops: addr.enc (Bech32 of an address of every prefix x version, then ParseBech32 of it), addr.parse (with re-encoding of the parsed address), addr.frompk/fromoutput, mig.enc, mig.dec (the last two mirrored as gen.mig.* and answered by the GENERATED migration.Encode / Decode). "
+ "C19": P("C19", e2e=["Iota.Tie.E2E.Migration", "Iota.Tie.E2E.Address"],
+   rule="ops: addr.enc (Bech32 of an address of every prefix x version, then ParseBech32 of it), addr.parse (with re-encoding of the parsed address) — both mirrored as gen.addr.* and answered by the GENERATED address.ParseBech32 / Bech32 / Bytes / Version on top of the generated bech32.Decode / Encode —, addr.frompk/fromoutput, mig.enc, mig.dec (the last two mirrored as gen.mig.* and answered by the GENERATED migration.Encode / Decode). "
         "All prefixes x versions x random/boundary hashes; Bech32 strings carrying every version byte 0..255 and payload lengths 0..50 under known and unknown prefixes, upper-case forms; corrupted addresses; "
         "migration round trips, single-tryte substitutions at every position of sampled strings, lengths 80/82, lower case, non-ASCII, bad prefix/suffix, invalid groups",
    assumptions=["BLAKE2b is a function (arbitrary H in the theorems, the parameter blake2b_Sum256 of the translated migration code, assumed to return 32 bytes); len(trytes) < 2^63",
-                "address.go (ParseBech32, Bech32, the three address types) is hand-modelled and pinned by source text; migration.go with its iota.go callees (guards.IsTrytesOfExactLength, the iota.go copy of b1t6) is translated as code"],
+                "address.go: ParsePrefix, Prefix.String, ParseBech32, Bech32 and the Bytes / Version methods are translated as code (stage 11; the interface Address as a CLOSED sum over the package's own three implementations — a foreign implementation passed to Bech32 is outside the translation; strings.ToLower/ToUpper/LastIndex assumed as in C04); ParseVersion, the String methods and the constructors from keys / output ids stay hand-modelled or pinned by text; migration.go with its iota.go callees (guards.IsTrytesOfExactLength, the iota.go copy of b1t6) is translated as code"],
    trusted_base=["Lean BLAKE2b oracle in the driver (validated against x/crypto by this run)"]),
  "C03": P("C03",
    rule="ops: bip39.enc, bip39.dec (per op the word list is selected with SetWordList), hash.sha256. Every entropy length 12..68 (valid and invalid) x {all-zero, all-one, random, 1..4 leading zero bytes, "
